@@ -571,3 +571,27 @@ Theorem C19_init_without_rule_clamps : forall xcol xcols, (1 <= xcols)%Z -> (xco
   term_col 0 xcols xcol = (xcols - 1)%Z /\ (xcols - 1 <> xcol - 0)%Z.
 Proof. exact init_without_rule_clamps. Qed.
 Print Assumptions C19_init_without_rule_clamps.
+
+(* ^Wx (fix 9a0f0fa of /repo: the `^W x` case calls vi_switch(w_cur) right after vi_wswap(), so the tail's vi_wfix() works with the height of
+   the half the window moved to): afterwards each window is a true window of its buffer, the region is the active window's and the cursor
+   line is inside the new half -- any heights, any tops, any cursor rows *)
+Theorem C19_wswap_keeps_inv : forall (R : Type) (fa fo : nat -> R) msga msgo (s : sstate R),
+  4 <= s_rows R s -> s_cur R s <= 1 -> length (s_scr R s) = s_rows R s ->
+  (0 <= v_top (s_act R s))%Z -> (0 <= v_len (s_act R s))%Z -> (0 <= v_top (s_oth R s))%Z -> (0 <= v_len (s_oth R s))%Z ->
+  split_inv R fa fo (wswap_tail R true fa fo msga msgo s).
+Proof. exact wswap_keeps_inv. Qed.
+Print Assumptions C19_wswap_keeps_inv.
+(* before it (vi_wfix() with the height of the half the window came from): on 2k+1 rows the halves have k-1 and k text rows; from the lower
+   half with the cursor on its last row the invariant fails after ^Wx -- the cursor line is below the upper half *)
+Theorem C19_wswap_unfixed_loses_cursor : forall (R : Type) (fa fo : nat -> R) msga msgo (s : sstate R) k,
+  2 <= k -> s_rows R s = 2 * k + 1 -> s_cur R s = 1 -> s_region R s = geom (s_rows R s) 2 1 ->
+  (0 <= v_top (s_act R s))%Z -> (v_row (s_act R s) = v_top (s_act R s) + Z.of_nat k - 1)%Z -> (v_row (s_act R s) < v_len (s_act R s))%Z ->
+  ~ split_inv R fa fo (wswap_tail R false fa fo msga msgo s).
+Proof. exact wswap_unfixed_loses_cursor. Qed.
+Print Assumptions C19_wswap_unfixed_loses_cursor.
+(* non-vacuity: 11 rows, lower window active at top 0 with the cursor on line 5 (its last row): with the fix the top moves to 1 *)
+Example C19_nonvacuous_wswap :
+  v_top (s_act nat (wswap_tail nat true (fun i => i) (fun i => i) 0 0 (mkS nat 11 1 (mkView 0 4 30) (mkView 0 0 30) (5, 5) (repeat 0 11)))) = 1%Z /\
+  v_top (s_act nat (wswap_tail nat false (fun i => i) (fun i => i) 0 0 (mkS nat 11 1 (mkView 0 4 30) (mkView 0 0 30) (5, 5) (repeat 0 11)))) = 0%Z /\
+  s_region nat (wswap_tail nat true (fun i => i) (fun i => i) 0 0 (mkS nat 11 1 (mkView 0 4 30) (mkView 0 0 30) (5, 5) (repeat 0 11))) = (0, 4).
+Proof. vm_compute. repeat split; reflexivity. Qed.
